@@ -14,8 +14,8 @@
 
 using namespace Vector::BLF;
 
-struct MCfg { bool writing; uint32_t C; long S; bool shipped; long B; uint32_t Q; int level; int stall_every; bool damaged;
-    std::string str() const { std::ostringstream s; s << (writing ? "write" : "read") << " C=" << C << " S=" << S << " B=" << (shipped ? 0x20000 : B) << " Q=" << (shipped ? 10 : Q) << " level=" << level << " stall_every=" << stall_every << (damaged ? " damaged-record" : ""); return s.str(); } };
+struct MCfg { bool writing; uint32_t C; long S; bool shipped; long B; uint32_t Q; int level; int stall_every; bool damaged; bool aligned;
+    std::string str() const { std::ostringstream s; s << (writing ? "write" : "read") << " C=" << C << " S=" << S << " B=" << (shipped ? 0x20000 : B) << " Q=" << (shipped ? 10 : Q) << " level=" << level << " stall_every=" << stall_every << (damaged ? " damaged-record" : "") << (aligned ? " boundary-aligned-bursts" : ""); return s.str(); } };
 
 static MCfg make_cfg(uint64_t seed, long ci) {
     Rng r(Rng::mix(seed ^ 0xC12, (uint64_t)ci));
@@ -27,6 +27,10 @@ static MCfg make_cfg(uint64_t seed, long ci) {
     c.level = r.chance(1, 2) ? 1 : 0;
     c.stall_every = 1 + r.below(7);
     c.damaged = !c.writing && (ci % 8) >= 4;
+    // bursty producer whose bursts end exactly on container boundaries while the pipeline drains completely in between:
+    // 8 objects fill one container and the application (not a worker) is the starved thread
+    c.aligned = c.writing && (ci % 8) >= 4;
+    if (c.aligned) c.S = (long)c.C / 8 - 48;
     return c;
 }
 
@@ -45,18 +49,21 @@ static Meas run_one(const MCfg & c, int N, const std::string & path, uint64_t ss
     alloc_reset_peak();
     sched_set_budget(0);
     sched_set_timeouts(30);      // virtual time: a timed wait (if the library has any) may expire while the consumer stalls
-    sched_begin(sseed, SCHED_STARVE, c.writing ? 2 : 0);
+    sched_begin(sseed, SCHED_STARVE, (c.writing && !c.aligned) ? 2 : 0);
     {
         File f;
         if (!c.shipped) f.verifSetLimits(c.Q, c.B);
         auto sample = [&](bool expect_quiescent) {
             size_t cont, bytes; f.verifHeld(cont, bytes);
             m.samples++;
+            if (getenv("VERIF_DEBUG")) fprintf(stderr, "sample %ld: containers=%zu bytes=%zu\n", m.samples, cont, bytes);
             if (bytes > m.max_held) m.max_held = bytes;
             if (cont > m.max_containers) m.max_containers = cont;
             if (expect_quiescent && sched_blocked_in_wait() >= 2) m.quiescent_samples++;
-            size_t bound = (size_t)std::max(B, S) + 2 * (size_t)c.C;
-            if (bytes > bound && m.err.empty()) m.err = "held " + std::to_string(bytes) + " bytes in " + std::to_string(cont) + " containers > max(B,S)+2C = " + std::to_string(bound);
+            // read: buffered data + the container being consumed + the one being appended; write: containers are allocated at full size,
+            // so the consumed one still held, the one being read and the one being filled count fully
+            size_t bound = (size_t)std::max(B, S) + (c.writing ? 3 : 2) * (size_t)c.C;
+            if (bytes > bound && m.err.empty()) m.err = "held " + std::to_string(bytes) + " bytes in " + std::to_string(cont) + " containers > max(B,S)+" + (c.writing ? "3" : "2") + "C = " + std::to_string(bound);
         };
         if (!c.writing) {
             f.open(path.c_str(), std::ios_base::in);
